@@ -176,9 +176,20 @@ class Effects:
             return set()
         h = t.target
         out = set()
+        rets = []
         for n in walk_scope(h.node):
             if isinstance(n, ast.Return) and n.value is not None:
-                v = n.value
+                stack = [n.value]
+                while stack:  # `a if c else b`, `a or b`: every alternative may be what is returned
+                    v = stack.pop()
+                    if isinstance(v, ast.IfExp):
+                        stack += [v.body, v.orelse]
+                    elif isinstance(v, ast.BoolOp):
+                        stack += list(v.values)
+                    else:
+                        rets.append(v)
+        for v in rets:
+            if True:
                 if isinstance(v, ast.Call):
                     out |= self.returned_kinds(h, v, depth + 1)
                     continue
